@@ -48,6 +48,25 @@ fn main() {
             &PathBuf::from(arg_val(&args, "--out").unwrap_or_else(|| "/dev/stdout".into())),
             tier_of(&args),
         ),
+        "gen" => {
+            // inspection aid only (not used by checks): print a few generated cases
+            let seed: u64 = arg_val(&args, "--seed").and_then(|s| s.parse().ok()).unwrap_or(1);
+            let n: usize = arg_val(&args, "--n").and_then(|s| s.parse().ok()).unwrap_or(1);
+            let len: usize = arg_val(&args, "--len").and_then(|s| s.parse().ok()).unwrap_or(400);
+            let ctx = verif_core::core::Ctx { tier: tier_of(&args), seed, shard: 0, nshards: 1, replay: false, gates: verif_core::findings::Gates::load(), node: verif_core::node::NodeSlot::new() };
+            let mut x = seed;
+            for _ in 0..n {
+                let tape: Vec<u32> = (0..len).map(|_| { x = verif_core::tape::splitmix64(x); (x >> 32) as u32 }).collect();
+                let mut t = verif_core::tape::Tape::new(&tape);
+                let case = prop.generate(&mut t, &ctx);
+                if let Some(src) = case["src"].as_str() {
+                    println!("{}\n// ---- tags: {}\n", src, case["tags"]);
+                } else {
+                    println!("{}", serde_json::to_string_pretty(&case).unwrap_or_default());
+                }
+            }
+            0
+        }
         _ => {
             eprintln!("unknown command `{}`", cmd);
             2
